@@ -1009,3 +1009,34 @@ func onlyForeignUseOfSlot(ia *ssa.IndexAddr) bool {
 	}
 	return true
 }
+
+// PARAM-SPECIAL (C04): which operators the parameterized renderer renders itself. The sibling rules compare
+// the two documented special cases (Like: the pattern travels as a rewritten parameter; Range: the form is
+// chosen from the parameter kinds) with their inline counterparts; every other operator must go through the
+// same table function as inline rendering, or nothing relates its parameterized SQL to the inline SQL.
+func rulePARAMSPECIAL(c *Ctx, r *Report) {
+	const rule = "PARAM-SPECIAL"
+	r.doc(rule, "the operators RenderParam answers before its lookup in the render table are among Like and Range (whose parameterized forms SIB-LIKE / SIB-RANGE compare with the inline ones); every other operator is rendered by the function registered for it, exactly as in inline mode, so the SQL shape cannot depend on the mode or on how many values there are")
+	dr := c.driverRoles()
+	if dr.Err != "" {
+		r.bad(rule, "anchor", "-", dr.Err)
+		return
+	}
+	special := c.specialCasedOps(dr.RenderParam)
+	var ops []string
+	for op := range special {
+		ops = append(ops, op)
+	}
+	sort.Strings(ops)
+	for _, op := range ops {
+		key := "RenderParam|special-cased|" + op
+		if op == "expr.Like" || op == "expr.Range" {
+			r.ok(rule, key, c.pos(dr.RenderParam.Pos()), "documented special case, compared with the inline form by the sibling rules")
+		} else {
+			r.bad(rule, key, c.pos(dr.RenderParam.Pos()), fmt.Sprintf("RenderParam renders %s itself (through %s) instead of calling the function registered for it: its parameterized SQL is produced by code that inline rendering does not use, so nothing guarantees that substituting the parameters gives the inline predicate (or that the placeholders match the parameters one by one)", op, special[op]))
+		}
+	}
+	if len(ops) == 0 {
+		r.ok(rule, "RenderParam|no-special-case", c.pos(dr.RenderParam.Pos()), "every operator goes through the table")
+	}
+}
